@@ -40,7 +40,7 @@ def run_case(case):
     violations, stats = seqcache.run_prog(case, PROPERTY)
     digest = hashlib.sha256(json.dumps([case['cfg'], case['prog']], sort_keys=True).encode()).hexdigest()
     return {'violations': violations, 'digest': digest, 'steps': stats['ops'], 'switches': 0, 'fired': {},
-            'probes': stats['probes'], 'virtual_s': 0.0, 'nontrivial': stats['ops'] >= 10,
+            'probes': stats['probes'], 'virtual_s': stats.get('virtual_s', 0.0), 'nontrivial': stats['ops'] >= 10,
             'outcome': {'ops': stats['ops']}}
 
 
